@@ -477,6 +477,61 @@ func (p *prog) stepInner(idx int, toks []string) *rec {
 		}
 		p.hold(axes)
 		return p.newOp(dt, func() (*tensor.Dense, error) { return t.SafeT(axes...) })
+	case "apiT", "apiTranspose":
+		// package-level tensor.T (a safe transpose) and tensor.Transpose (safe transpose + data movement)
+		t, dt := p.get(toks[1])
+		if len(toks) != 3 {
+			break
+		}
+		axes, err := parseInts(toks[2])
+		if t == nil || err != nil {
+			p.push(nil, dt)
+			return simple("skip")
+		}
+		p.hold(axes)
+		return p.newOp(dt, func() (*tensor.Dense, error) {
+			var r tensor.Tensor
+			var err error
+			if toks[0] == "apiT" {
+				r, err = tensor.T(t, axes...)
+			} else {
+				r, err = tensor.Transpose(t, axes...)
+			}
+			if err != nil {
+				return nil, err
+			}
+			return r.(*tensor.Dense), nil
+		})
+	case "apimat":
+		t, dt := p.get(toks[1])
+		if t == nil {
+			p.push(nil, dt)
+			return simple("skip")
+		}
+		return p.newOp(dt, func() (*tensor.Dense, error) { return tensor.Materialize(t).(*tensor.Dense), nil })
+	case "narrow":
+		// narrow $v dim start length fn|meth
+		t, dt := p.get(toks[1])
+		if t == nil || len(toks) != 6 {
+			p.push(nil, dt)
+			return simple("skip")
+		}
+		dim, _ := strconv.Atoi(toks[2])
+		start, _ := strconv.Atoi(toks[3])
+		length, _ := strconv.Atoi(toks[4])
+		return p.newOp(dt, func() (*tensor.Dense, error) {
+			var v tensor.View
+			var err error
+			if toks[5] == "fn" {
+				v, err = tensor.Narrow(t, dim, start, length)
+			} else {
+				v, err = t.Narrow(dim, start, length)
+			}
+			if err != nil {
+				return nil, err
+			}
+			return v.(*tensor.Dense), nil
+		})
 	case "roll":
 		t, dt := p.get(toks[1])
 		if t == nil || len(toks) != 5 {
